@@ -175,23 +175,26 @@ def unescape : Text → Text
   | c :: r => c :: unescape r
   | [] => []
 
+/-- the text inside `'…'` (or `$'…'`, kept with its `$`), if the end is quoted -/
+def quotedInner : Text → Option Text
+  | '\'' :: r => if r ≠ [] ∧ r.getLast? = some '\'' then some (unescape r.dropLast) else none
+  | '$' :: '\'' :: r => if r ≠ [] ∧ r.getLast? = some '\'' then some ('$' :: unescape r.dropLast) else none
+  | _ => none
+
 def parseEnd (t : Text) : EndTok :=
-  let quotedInner : Option Text :=
-    match t with
-    | '\'' :: r => if r ≠ [] ∧ r.getLast? = some '\'' then some (unescape r.dropLast) else none
-    | '$' :: '\'' :: r => if r ≠ [] ∧ r.getLast? = some '\'' then some ('$' :: unescape r.dropLast) else none
-    | _ => none
-  match quotedInner with
-  | some inner => let (ab, name) := stripDollar inner; .label name ab
+  match quotedInner t with
+  | some inner => .label (stripDollar inner).2 (stripDollar inner).1
   | none =>
-    let (cAbs, s1) := stripDollar t
+    let s1 := (stripDollar t).2
+    let cAbs := (stripDollar t).1
     let ls := s1.takeWhile isUpperAZ
     let s2 := s1.dropWhile isUpperAZ
-    let (rAbs, s3) := stripDollar s2
+    let s3 := (stripDollar s2).2
+    let rAbs := (stripDollar s2).1
     if ls ≠ [] ∧ s3 ≠ [] ∧ s3.all isDigit09 then .cell (numOf s3 - 1) (colOf ls) rAbs cAbs
     else if ls ≠ [] ∧ s2 = [] then .col (colOf ls) cAbs
     else if s1 ≠ [] ∧ s1.all isDigit09 then .row (numOf s1 - 1) cAbs
-    else let (ab, name) := stripDollar t; .label name ab
+    else .label s1 cAbs
 
 /-- qualification and ends of a printed reference text -/
 def parseRefText (text : Text) : Option (Prefix × List EndTok) := do
